@@ -43,7 +43,17 @@ OLD_VARIANTS = ["bare", "bare_default", "cache", "cache_default", "early", "soft
 # "ctx": one-parameter function whose key template reads the template context (`arg` = the tenant the caller's
 # key_context sets);  "typed": one-parameter function called with k as int / bool / float (`arg` selects the type) - in both
 # the key is (k, arg) although the call arguments are equal (ctx) or compare equal (typed)
-TWO_PARAM = {"bare_ctx": "ctx", "cache_ctx": "ctx", "early_ctx": "ctx", "soft_ctx": "ctx",
+# stack_*: TWO protected cache decorators on one function f(s, k), each with its own key template and its own single-flight:
+#   coarse: outer key leaves `s` out, inner key has it;  equal: both leave it out;  finer: outer has it, inner leaves it out.
+# At every layer overlapping calls with the same key OF THAT LAYER share that layer's execution, so calls that agree on k
+# share one body whatever `s` is: as far as bodies and results go the key is k ("omit").
+STACKS = {"stack_coarse": ("cache", "o:{k}", "soft", "i:{k}:{s}", False),
+          "stack_coarse_early": ("early", "o:{k}", "cache", "i:{k}:{s}", True),      # a plain `wraps` decorator in between
+          "stack_equal": ("soft", "o:{k}", "early", "i:{k}", False),
+          "stack_finer": ("cache", "o:{k}:{s}", "soft", "i:{k}", True)}
+# under time steps the two layers of stack_finer expire at different instants (the outer entry of a later `s` is younger)
+UNTIMED = {"stack_finer"}
+TWO_PARAM = {**{v: "omit" for v in STACKS}, "bare_ctx": "ctx", "cache_ctx": "ctx", "early_ctx": "ctx", "soft_ctx": "ctx",
              "bare_typed": "typed", "cache_typed": "typed", "early_fg_typed": "typed", "cache_lock_typed": "typed",
              "bare_omit": "omit", "cache_omit": "omit", "early_omit": "omit", "soft_omit": "omit", "cache_lock_omit": "omit",
              "cache_omit_obj": "omit", "early_omit_obj": "omit", "cache_omit_gated": "omit",
@@ -155,12 +165,13 @@ class Run:
     leftover: int = 0
     frozen: list = field(default_factory=list)
     busy_waits: int = 0
+    returned: dict = field(default_factory=dict)     # observation of a returned error-like object -> its value code
     raised: dict = field(default_factory=dict)       # observation -> "E<shape>.<x>": what each body raised
     raised_obs: dict = field(default_factory=dict)   # x -> observation (for reports)
     received_obs: dict = field(default_factory=dict)  # caller -> observation of the exception it ended with
 
 
-def outcome_code(task: asyncio.Task, own_cancel: bool = True, raised=None, received=None, cid=None) -> str:
+def outcome_code(task: asyncio.Task, own_cancel: bool = True, raised=None, received=None, cid=None, returned=None) -> str:
     """C: the caller itself was cancelled (by the schedule);  K: it ended with CancelledError without having been
     cancelled - what the await of an execution that ended cancelled delivers;  E<shape>.<x>: it ended with an exception
     that is, in every observable respect (sfexc.observe), the one the body of execution x raised"""
@@ -177,6 +188,10 @@ def outcome_code(task: asyncio.Task, own_cancel: bool = True, raised=None, recei
     r = task.result()
     if isinstance(r, int) and not isinstance(r, bool):
         return f"R{r}"
+    if isinstance(r, (BaseException, sfexc.ErrorValue)):
+        code = (returned or {}).get(sfexc.observe_value(r))      # the object a body returned, received as a VALUE
+        if code is not None:
+            return f"R{code}"
     return "R?" + repr(r)[:40]
 
 
@@ -231,11 +246,23 @@ def gate_backend():
     return "gmem://?check_interval=0"
 
 
-def gates_of(variant: str, n: int, kind: str) -> int:
+def kept(variant: str, kind: str, val: int) -> bool:
+    """does the cache decorator of the variant store what the body returned?  kind "r": yes; kind "v" (a returned object that
+    looks like an error): `cache` and `early` do not store a value that is an Exception instance, `soft` stores everything"""
+    if kind == "r":
+        return True
+    if kind != "v":
+        return False
+    if variant in STACKS and sfexc.is_exception_instance(val):
+        raise HarnessError("C07 case: a stack of decorators with a returned Exception instance (the layers disagree on storing it)")
+    return variant.startswith("soft") or not sfexc.is_exception_instance(val)
+
+
+def gates_of(variant: str, n: int, kind: str, val: int = 0) -> int:
     """suspension points of an execution that runs the body (n scripted ones)"""
     if not GATED[variant]:
         return n
-    return 1 + n + (1 if kind == "r" else 0)
+    return 1 + n + (1 if kept(variant, kind, val) else 0)
 
 
 # "typed": k is passed as int / float / bool (k < 2; complex otherwise): 1, 1.0, True are equal and hash alike - three keys
@@ -308,6 +335,28 @@ def _build(variant: str, body, TTL, INNER_TTL, reuse=(0, 0)):
             out.append(other)
         return out
 
+    if variant in STACKS:
+        outer, okey, inner, ikey, between = STACKS[variant]
+        cache = Cache()
+        cache.setup("mem://")
+
+        def layer(name, key):
+            if name == "cache":
+                return cache.cache(ttl=TTL, key=key)
+            if name == "early":
+                return cache.early(ttl=TTL, early_ttl=INNER_TTL, key=key)
+            return cache.soft(ttl=TTL, soft_ttl=INNER_TTL, key=key)
+
+        g = layer(inner, ikey)(f2)
+        if between:
+            from functools import wraps
+            below = g
+
+            @wraps(below)
+            async def passthrough(*args, **kwargs):
+                return await below(*args, **kwargs)
+            g = passthrough
+        return layer(outer, okey)(g), cache
     kind = TWO_PARAM.get(variant)
     func = f2 if kind in ("omit", "all") else f
     template = None if (kind == "all" or variant in ("bare_default", "cache_default")) else (
@@ -353,7 +402,8 @@ def execute(case: dict, cancel_budget: int = 0, tick_budget: int = 0, tick_sizes
     sched = SfSched(schedule, cancel_budget=cancel_budget, tick_budget=tick_budget, tick_sizes=tick_sizes)
     sched.log = run.events.append
     spawned = {int(c_): int(p_) for c_, p_ in (case.get("spawned") or {}).items()}
-    sched.split_bursts = "early_ttl" in case and EARLY[variant] and not GATED[variant]
+    # (also for stacks: the inner layer is reached one loop iteration after the caller's step at the outer layer)
+    sched.split_bursts = ("early_ttl" in case and EARLY[variant] and not GATED[variant]) or variant in STACKS
     _CURRENT[0] = sched
 
     async def end_cancelled(mode):
@@ -398,6 +448,10 @@ def execute(case: dict, cancel_budget: int = 0, tick_budget: int = 0, tick_sizes
                 raise
             if kind == "r":
                 return val
+            if kind == "v":
+                obj = sfexc.make_value(val, cid)        # an error-like object is RETURNED, not raised
+                run.returned[sfexc.observe_value(obj)] = sfexc.value_code(val, cid)
+                return obj
             if kind == "k":
                 return await end_cancelled(val)
             try:
@@ -425,7 +479,7 @@ def execute(case: dict, cancel_budget: int = 0, tick_budget: int = 0, tick_sizes
             return go
 
         def code(cid, t):
-            return outcome_code(t, cid in sched.cancelled_by_harness, run.raised, run.received_obs, cid)
+            return outcome_code(t, cid in sched.cancelled_by_harness, run.raised, run.received_obs, cid, run.returned)
 
         def snapshot():
             st = {}
